@@ -53,6 +53,7 @@ type fpHeap struct {
 	retKind   map[string]string // "pkg.F" / "pkg.T.M" / "pkg.Var" -> kind of result 0: ptr | slice | map | func | value | named
 	mutators  map[string]bool   // methods of *oidc.Error that assign to a field of their receiver (c11errprog.go: c11ErrorMutators)
 	mutCalls  []fpMutCall       // every call of one of them, with the origins of the receiver
+	initCalls []fpMutCall       // … inside the initialiser expression of a package-level variable (runs once, at package initialisation)
 }
 
 // fpMutCall: `x.WithDescription(…)` — a write into the object x refers to, made by the method (a `recv` foreign write)
@@ -714,7 +715,159 @@ func (w *fpWalk) heapMutatorCall(c *ast.CallExpr) {
 		at = append(at, a)
 	}
 	sort.Strings(at)
-	h.mutCalls = append(h.mutCalls, fpMutCall{File: w.f.rel, Func: w.fn, Method: sel.Sel.Name, Line: w.f.gen.fset.Position(c.Pos()).Line, Origins: at})
+	mc := fpMutCall{File: w.f.rel, Func: w.fn, Method: sel.Sel.Name, Line: w.f.gen.fset.Position(c.Pos()).Line, Origins: at}
+	if w.recvT == "" && w.depth == 0 && strings.HasSuffix(w.fn, ".init") {
+		// the body of a package's `func init()` runs once, at package initialisation (a function literal inside it may run later: depth > 0)
+		h.initCalls = append(h.initCalls, mc)
+		return
+	}
+	h.mutCalls = append(h.mutCalls, mc)
+}
+
+// heapMutatorValue: a mutator method taken as a VALUE (`f := e.WithDescription`, handed on as an argument): whoever calls the value
+// writes the object `e` refers to; listed like a call (deep round 4)
+func (w *fpWalk) heapMutatorValue(sel *ast.SelectorExpr) {
+	h := w.f.gen.heap
+	if h.collect || w.resEnv == nil || !h.mutators[sel.Sel.Name] || w.direct[sel] {
+		return
+	}
+	if id, ok := sel.X.(*ast.Ident); ok {
+		if _, imp := w.isImport(id); imp {
+			return
+		}
+	}
+	var at []string
+	for a := range w.origins(sel.X, 0) {
+		at = append(at, a)
+	}
+	sort.Strings(at)
+	h.mutCalls = append(h.mutCalls, fpMutCall{File: w.f.rel, Func: w.fn, Method: sel.Sel.Name, Line: w.f.gen.fset.Position(sel.Pos()).Line, Origins: at})
+}
+
+// heapInitCalls (deep round 4): mutator calls OUTSIDE every declared function.
+//   * in the initialiser expression of a package-level variable (`var errX = oidc.ErrY().WithDescription("…")`): runs once, at
+//     package initialisation, before any request — listed apart (`errorMutatorInitCalls`), it is no write "after initialisation";
+//   * inside the function literal a package-level variable is initialised with (`var ErrX = func() *Error { return base.WithParent(…) }`):
+//     runs whenever the variable is called — listed with the ordinary calls, under the variable's name.  A receiver that is a
+//     local / parameter of the literal is `foreign:local` (the literal's own bindings are not followed).
+func (g *fpGen) heapInitCalls() {
+	h := g.heap
+	for _, dir := range fpDirs {
+		p := g.pkgs[dir]
+		for rel, f := range p.files {
+			ff := g.fileCtx(dir, rel)
+			for _, d := range f.Decls {
+				x, ok := d.(*ast.GenDecl)
+				if !ok || x.Tok != token.VAR {
+					continue
+				}
+				for _, sp := range x.Specs {
+					vs, ok := sp.(*ast.ValueSpec)
+					if !ok {
+						continue
+					}
+					for i, v := range vs.Values {
+						name := "_"
+						if i < len(vs.Names) {
+							name = vs.Names[i].Name
+						} else if len(vs.Names) > 0 {
+							name = vs.Names[0].Name
+						}
+						w := &fpWalk{f: ff, fn: p.short + "." + name, env: map[string]fpProv{}, tenv: map[string]string{}, tparams: map[string]string{},
+							decl: map[string]fpDecl{}, direct: map[ast.Node]bool{}}
+						var walk func(n ast.Node, inLit bool)
+						walk = func(n ast.Node, inLit bool) {
+							ast.Inspect(n, func(n ast.Node) bool {
+								switch c := n.(type) {
+								case *ast.FuncLit:
+									walk(c.Body, true)
+									return false
+								case *ast.CallExpr:
+									sel, ok := c.Fun.(*ast.SelectorExpr)
+									if !ok || !h.mutators[sel.Sel.Name] {
+										return true
+									}
+									if id, ok := sel.X.(*ast.Ident); ok {
+										if _, imp := w.isImport(id); imp {
+											return true
+										}
+									}
+									at := w.origins(sel.X, 0)
+									if id, ok := ast.Unparen(sel.X).(*ast.Ident); ok && inLit {
+										if _, isGlobal := w.lookupGlobal(id.Name); !isGlobal {
+											at = atomsOf("foreign:local")
+										}
+									}
+									var os []string
+									for a := range at {
+										os = append(os, a)
+									}
+									sort.Strings(os)
+									mc := fpMutCall{File: rel, Func: w.fn, Method: sel.Sel.Name, Line: g.fset.Position(c.Pos()).Line, Origins: os}
+									if inLit {
+										h.mutCalls = append(h.mutCalls, mc)
+									} else {
+										h.initCalls = append(h.initCalls, mc)
+									}
+								}
+								return true
+							})
+						}
+						walk(v, false)
+					}
+				}
+			}
+		}
+	}
+}
+
+// originMayBe: may a receiver with this origin BE the package-level cell `cell`?  `fresh` never, `global:<g>` only g, anything else
+// (a parameter / receiver handed through, an errors.As target, the result of an unresolved call) may be any object of the type
+func originMayBe(origin, cell string) bool {
+	if origin == "fresh" {
+		return false
+	}
+	if strings.HasPrefix(origin, "global:") {
+		return origin == "global:"+cell
+	}
+	return true
+}
+
+// heapMayHit (deep round 4, the refined may-alias rule): the write hw may hit the package-level pointer cell c of the same pointee
+// type — unless hw is the receiver write of a TRACKED mutator method (every call site of which is listed in mutCalls) and no listed
+// call of that method has a receiver that may be c.  Calls inside the initialiser of a package-level variable are not listed there.
+func (g *fpGen) heapMayHit(hw fpHeapWrite, c fpSharedCell) bool {
+	if hw.Type != c.Type {
+		return false
+	}
+	m, tracked := g.heapTrackedMethod(hw)
+	if !tracked {
+		return true
+	}
+	for _, k := range g.heap.mutCalls {
+		if k.Method != m {
+			continue
+		}
+		for _, o := range k.Origins {
+			if originMayBe(o, c.Name) {
+				return true
+			}
+		}
+	}
+	return false
+}
+
+// heapTrackedMethod: hw is the receiver write of a mutator method of *oidc.Error (the set computed from pkg/oidc/error.go)
+func (g *fpGen) heapTrackedMethod(hw fpHeapWrite) (string, bool) {
+	if hw.Via != "recv" {
+		return "", false
+	}
+	for m := range g.heap.mutators {
+		if hw.Func == "oidc.Error."+m {
+			return m, true
+		}
+	}
+	return "", false
 }
 
 // heapReturn: record the origins of every result (collect pass)
@@ -804,7 +957,7 @@ func (g *fpGen) heapExpansion() []fpSite {
 	sort.Slice(cells, func(i, j int) bool { return cells[i].Name < cells[j].Name })
 	for _, hw := range g.heap.writes {
 		for _, c := range cells {
-			if hw.Type == c.Type {
+			if g.heapMayHit(hw, c) {
 				phase := hw.Phase
 				if phase == "ctor" || phase == "option" {
 					phase = "func"
@@ -889,6 +1042,33 @@ func (g *fpGen) heapFacts(handsOut map[string]map[string]bool) string {
 	}
 	b.WriteString(strings.Join(ls, ",\n") + "\n]\n\n")
 
+	ic := append([]fpMutCall{}, g.heap.initCalls...)
+	sort.SliceStable(ic, func(i, j int) bool {
+		if ic[i].File != ic[j].File {
+			return ic[i].File < ic[j].File
+		}
+		return ic[i].Line < ic[j].Line
+	})
+	b.WriteString("/-- … and the calls inside the initialiser expression of a package-level variable (`var errX = oidc.ErrY().WithDescription(…)`): they run\n    once, at package initialisation; (variable, line, method, origins of the receiver) -/\n")
+	b.WriteString("def errorMutatorInitCalls : List (String × Nat × String × List String) := [\n")
+	ls = nil
+	for _, c := range ic {
+		ls = append(ls, fmt.Sprintf("  (%s, %d, %s, %s)", leanStr(c.Func), c.Line, leanStr(c.Method), leanStrs(c.Origins)))
+	}
+	b.WriteString(strings.Join(ls, ",\n") + "\n]\n\n")
+	var tr []string
+	for m := range g.heap.mutators {
+		tr = append(tr, m)
+	}
+	sort.Strings(tr)
+	b.WriteString("/-- the mutator methods whose EVERY call site in the scanned packages is listed in `errorMutatorCalls` (also a method taken as a value):\n    (the method as a writer in `foreignWrites`, its bare name at a call site) -/\n")
+	b.WriteString("def trackedMutators : List (String × String) := [\n")
+	ls = nil
+	for _, m := range tr {
+		ls = append(ls, fmt.Sprintf("  (%s, %s)", leanStr("oidc.Error."+m), leanStr(m)))
+	}
+	b.WriteString(strings.Join(ls, ",\n") + "\n]\n\n")
+
 	var fs []string
 	for f := range g.heap.factories {
 		fs = append(fs, f)
@@ -896,10 +1076,11 @@ func (g *fpGen) heapFacts(handsOut map[string]map[string]bool) string {
 	sort.Strings(fs)
 	b.WriteString("/-- functions that return a function literal (handler / option / issuer factories) -/\n")
 	b.WriteString("def closureFactories : List String := " + leanStrs(fs) + "\n\n")
-	b.WriteString("def heapFacts : Footprint.HeapFacts :=\n  { cells := sharedCells, handsOut := handsOut, writes := foreignWrites, factories := closureFactories }\n\n")
+	b.WriteString("def heapFacts : Footprint.HeapFacts :=\n  { cells := sharedCells, handsOut := handsOut, writes := foreignWrites, factories := closureFactories,\n    mutCalls := errorMutatorCalls, tracked := trackedMutators }\n\n")
 	g.g.facts["sharedCells"] = len(cells)
 	g.g.facts["foreignWrites"] = len(ws)
 	g.g.facts["errorMutatorCalls"] = len(mc)
+	g.g.facts["errorMutatorInitCalls"] = len(ic)
 	return b.String()
 }
 
